@@ -82,26 +82,29 @@ class ConcreteEnv(BaseEnv):
         super().__init__()
         self.inputs = {k: dec_val(v) for k, v in inputs.items()}
         self.failed = []
+        self.defaulted = []
 
-    def _get(self, name):
+    def _get(self, name, default=None):
         if name not in self.inputs:
-            raise ConcreteMismatch(f"input {name} not in model (path diverged)")
+            # created after the point the model was taken (e.g. after a failed obligation): any value will do
+            self.defaulted.append(name)
+            return default
         return self.inputs[name]
 
     def int(self, name, lo, hi):
-        v = self._get(name)
+        v = self._get(name, 0 if (lo is None or lo <= 0) and (hi is None or hi >= 0) else lo)
         if (lo is not None and v < lo) or (hi is not None and v > hi):
             raise ConcreteMismatch(f"input {name}={v} outside [{lo},{hi}]")
         return v
 
     def bytes(self, name, n):
-        v = self._get(name)
+        v = self._get(name, bytes(n))
         if len(v) != n:
             raise ConcreteMismatch(f"input {name} has length {len(v)} != {n}")
         return v
 
     def bool(self, name):
-        return bool(self._get(name))
+        return bool(self._get(name, False))
 
     def choice(self, name, n):
         return self.int(name, 0, n - 1)
@@ -438,8 +441,16 @@ def run_concrete(hmod, case, inputs):
     env = ConcreteEnv(inputs)
     outcome = "ok"
     err = None
+
+    def _alarm(signum, frame):
+        raise TimeoutError("no termination within the replay time limit")
+    signal.signal(signal.SIGALRM, _alarm)
+    signal.alarm(int(getattr(hmod, "CONCRETE_TIMEOUT_S", 60)))
     try:
-        hmod.run(env, case)
+        try:
+            hmod.run(env, case)
+        finally:
+            signal.alarm(0)
     except ConcreteMismatch as e:
         return {"error": f"mismatch: {e}", "sig": None, "failed": [], "observed": {}}
     except Exception as e:
